@@ -36,8 +36,12 @@ use redis_sim::simulator::{
     SimulatedReadBuffer, SimulationHarness, VirtualTime,
 };
 
-fn sorted_map(m: &std::collections::HashMap<String, u64>) -> String {
-    let mut v: Vec<(&String, &u64)> = m.iter().collect();
+fn sorted_map<'a, M>(m: &'a M) -> String
+where
+    &'a M: IntoIterator<Item = (&'a String, &'a u64)>,
+{
+    // whatever map type the counters live in (HashMap today): only its (key, count) pairs are used
+    let mut v: Vec<(&String, &u64)> = m.into_iter().collect();
     v.sort();
     v.iter().map(|(k, n)| format!("{}={}", k, n)).collect::<Vec<_>>().join(",")
 }
